@@ -217,28 +217,34 @@ Definition inverse_ok (tol : Q) (cov N : mat) : bool :=
           (combine (seq 0 n) Nt))
       (combine (seq 0 n) cov).
 
-Definition chi2_clauses (b sq : vec) (A : mat) (ia : vec) (ichi2 : Q) (iyfit : vec) (idof : Z) (icovar : mat) (ivar : vec) : list bool :=
+(* slack >= 1 scales the rounding tolerances with the conditioning of the system (supplied by the harness as
+   max(1, cond(A^T W A) / 1e8), i.e. tolerances ~ cond * 1e-16 .. 1e-17); clause 7, the certified optimality test, does NOT use it *)
+Definition chi2_clauses (slack : Q) (b sq : vec) (A : mat) (ia : vec) (ichi2 : Q) (iyfit : vec) (idof : Z) (icovar : mat) (ivar : vec) : list bool :=
   let nstar := ncols A in
   let D := cc_data A sq b in
   let S0 := chi2r D (zeros nstar) in                             (* sum w b^2 : the scale of chi-square *)
   (* every comparison is relative (to the terms of the equation, to the largest entry, to S0): the clauses mean the
      same whatever the absolute scale of sqivar and bvec *)
-  [ grad_small tol9 nstar D ia                                   (* 0 weighted normal equations *)
-  ; vclose_max tol9 iyfit (mat_vec A ia)                         (* 1 fitted values *)
+  [ grad_small (tol9 * slack) nstar D ia                         (* 0 weighted normal equations *)
+  ; vclose_max (tol9 * slack) iyfit (mat_vec A ia)               (* 1 fitted values *)
   ; qclose_s tol8 S0 ichi2 (chi2r D ia)                          (* 2 chi-square of the returned coefficients *)
   ; Z.eqb idof (cc_dof sq nstar)                                 (* 3 degrees of freedom *)
-  ; inverse_ok tol8 icovar (normal_mat nstar D)                  (* 4 covariance = inverse of A^T W A *)
+  ; inverse_ok (tol8 * slack) icovar (normal_mat nstar D)        (* 4 covariance = inverse of A^T W A *)
   ; meq_bool icovar (transpose icovar)                           (* 5 symmetric *)
   ; veq_bool ivar (diag icovar)                                  (* 6 variances = diagonal *)
     (* 7 the chi-square of the returned coefficients is within 1e-6 (relative) of the PROVEN minimum
          (wls_solve_optimal; chi2r = chi2 by chi2r_correct): decides optimality also for badly scaled systems, where a truncated
-         pseudo-inverse is off by far more than rounding *)
+         pseudo-inverse is off by far more than rounding.  No conditioning slack: measured on the unmodified code the excess is
+         <= 1e-12 T up to cond 1e14 (nearly collinear templates), a truncated solution has >= 1e-5 T *)
   ; match wls_solve nstar D with
-    | Some xopt => Qle_bool (chi2r D ia) (chi2r D xopt * (1 + tol6) + tol6 * tol6 * S0)
+    | Some xopt =>
+        (* T = |a|^T |A^T W A| |a| : the un-cancelled size of the quadratic form (backward-error scale) *)
+        let T := dotr (vabs ia) (mat_vec_r (map vabs (normal_mat nstar D)) (vabs ia)) in
+        Qle_bool (chi2r D ia) (chi2r D xopt * (1 + tol6) + tol9 * T)
     | None => false
     end ].
-Definition chi2_ok (b sq : vec) (A : mat) (ia : vec) (ichi2 : Q) (iyfit : vec) (idof : Z) (icovar : mat) (ivar : vec) : bool :=
-  forallb id (chi2_clauses b sq A ia ichi2 iyfit idof icovar ivar).
+Definition chi2_ok (slack : Q) (b sq : vec) (A : mat) (ia : vec) (ichi2 : Q) (iyfit : vec) (idof : Z) (icovar : mat) (ivar : vec) : bool :=
+  forallb id (chi2_clauses slack b sq A ia ichi2 iyfit idof icovar ivar).
 
 Definition astep_ok (tol : Q) (s w g a' : mat) : bool :=
   Nat.eqb (length a') (length s)
@@ -335,7 +341,7 @@ Definition pca_ok (tol : Q) (newflux newivar : mat) (nkeep : nat) (iflux iacoeff
 
 (* ================================================================== cases *)
 Inductive case :=
-| CChi2 (b sq : vec) (A : mat) (ia : vec) (ichi2 : Q) (iyfit : vec) (idof : Z) (icovar : mat) (ivar : vec)
+| CChi2 (slack : Q) (b sq : vec) (A : mat) (ia : vec) (ichi2 : Q) (iyfit : vec) (idof : Z) (icovar : mat) (ivar : vec)
 | CPcomp (x : mat) (standardize covariance : bool) (sd0 sdc : vec) (ievals : vec) (icoef iderived : mat) (ivariance : vec)
   (* HMF with a, g set by the harness: astep(), gstep(), astepnn(), gstepnn(), normbase(),
      badness() at (a,g), at (astep, g), at (a, gstep) *)
@@ -367,15 +373,15 @@ Definition b2z (bit : Z) (ok : bool) : Z := if ok then 0%Z else bit.
 
 Definition run_case (c : case) : Z :=
   match c with
-  | CChi2 b sq A ia ichi2 iyfit idof icovar ivar =>
+  | CChi2 slack b sq A ia ichi2 iyfit idof icovar ivar =>
       let agree := match computechi2 b sq A with
                    | None => false
-                   | Some r => vclose_max tol8 ia (c_acoeff r)
-                               && qclose_s tol8 (chi2r (cc_data A sq b) (zeros (ncols A))) ichi2 (c_chi2 r)
-                               && vclose_max tol8 iyfit (c_yfit r) && Z.eqb idof (c_dof r)
-                               && mclose_max tol8 icovar (c_covar r) && vclose_max tol8 ivar (c_var r)
+                   | Some r => vclose_max (tol8 * slack) ia (c_acoeff r)
+                               && qclose_s (tol8 * slack) (chi2r (cc_data A sq b) (zeros (ncols A))) ichi2 (c_chi2 r)
+                               && vclose_max (tol8 * slack) iyfit (c_yfit r) && Z.eqb idof (c_dof r)
+                               && mclose_max (tol8 * slack) icovar (c_covar r) && vclose_max (tol8 * slack) ivar (c_var r)
                    end in
-      (b2z 1 agree + b2z 2 (chi2_ok b sq A ia ichi2 iyfit idof icovar ivar))%Z
+      (b2z 1 agree + b2z 2 (chi2_ok slack b sq A ia ichi2 iyfit idof icovar ivar))%Z
   | CPcomp x st cv sd0 sdc ievals icoef ider ivariance =>
       (b2z 1 (pcomp_model_agree tol8 (pcomp_C (pcomp_array x st sd0) cv sdc) ievals icoef ivariance)
        + b2z 2 (pcomp_ok tol8 x st cv sd0 sdc ievals icoef ider ivariance))%Z
@@ -399,7 +405,7 @@ Definition run_case (c : case) : Z :=
 (* clause-by-clause verdict of the specification checker (used to label a violation) *)
 Definition diag_case (c : case) : list bool :=
   match c with
-  | CChi2 b sq A ia ichi2 iyfit idof icovar ivar => chi2_clauses b sq A ia ichi2 iyfit idof icovar ivar
+  | CChi2 slack b sq A ia ichi2 iyfit idof icovar ivar => chi2_clauses slack b sq A ia ichi2 iyfit idof icovar ivar
   | CPcomp x st cv sd0 sdc ievals icoef ider ivariance => pcomp_clauses tol8 x st cv sd0 sdc ievals icoef ider ivariance
   | CHmf s w a g eps ia ig iann ignn inorm ibad ibad_a ibad_g => hmf_clauses s w a g eps ia ig iann ignn ibad ibad_a ibad_g
   | CPca newflux newivar nkeep iflux iacoeff ieval iusemask => pca_clauses tol5 newflux newivar nkeep iflux iacoeff ieval iusemask
